@@ -22,9 +22,9 @@ type c14Case struct {
 	Origin string `json:"origin"` // gopki | stdlib | hand
 	KeyFix string `json:"keyFix"` // fixture name
 	Layout int    `json:"layout,omitempty"`
-	CSR    bool   `json:"csr,omitempty"`  // CSR variant: the leaf holds a request made from KeyFix
-	Seq    []int  `json:"seq"`            // trigger sequence
-	Deco   int    `json:"deco,omitempty"` // how the hand-made file is decorated around the PEM block (c14Decos)
+	CSR    bool   `json:"csr,omitempty"`   // CSR variant: the leaf holds a request made from KeyFix
+	Seq    []int  `json:"seq"`             // trigger sequence
+	Deco   int    `json:"deco,omitempty"`  // how the hand-made file is decorated around the PEM block (c14Decos)
 	Place  int    `json:"place,omitempty"` // 0 flat directory, alias = file stem; 1 configs in sub-directories with explicit aliases that differ from their file stems
 }
 
